@@ -9,8 +9,8 @@ TIES = ["wpool_Send", "wpool_lazySend", "wpool_lazyResend", "wpool_Run", "wpool_
         "wpool_Sched", "wpool_New", "list_PushBack", "list_PopBack"]
 TRUSTED_BASE = [
     "Lean 4.33.0 kernel; axioms per theorem under coverage.theorems",
-    "model FsDb/Model/WPool.lean covers the deferred-send path (list, lazySendM, flusher); critical sections under listM are atomic steps (mutex semantics, trusted)",
-    "NOT modelled, only exercised on the real pool: the buffered channel and the workers (each event taken once), the Send timeout (prompt return), Stop/Run/Send orders, cancellation",
+    "models FsDb/Model/Pool.lean (the whole pool: Run, Send with its three-way select, deferred path, flusher, channel, workers, Stop with its two waits; goroutines anonymous, jobs in hands as lists), FsDb/Model/WPool.lean (its deferred-send fragment), FsDb/Model/PoolWg.lean (the wait-group protocol between Send and Stop with Go's misuse condition); critical sections under listM / sendM and channel operations are atomic steps, a select offers every ready case (mutex / channel semantics, trusted)",
+    "that the code's critical sections and selects are the models' steps is tied (skeleton texts) and exercised on the real pool, not proved; context cancellation = a flag; panics other than the wait-group misuse are not modelled",
     "tie: skeleton texts of Send/lazySend/lazyResend/Run/run/exec/Stop/Sched/New; orchestrated and random runs on the real pool (hook points fl.beforeExit, ls.tryLockFailed)",
 ]
 ASSUMPTIONS = ["jobs terminate", "Go scheduler is fair"]
